@@ -276,6 +276,8 @@ class Interp:
             self.py_raise(AttributeError, name)
         if isinstance(obj, SBytes):
             return models.sbytes_attr(self, obj, name)
+        if isinstance(obj, models.AssocDict):
+            return models.assoc_attr(self, obj, name)
         if isinstance(obj, (SInt, SBool)):
             m = models.int_attr(self, obj, name)
             if m is not None:
